@@ -16,7 +16,7 @@ from vmon import common as C
 
 LEVEL = "exploration"
 TECHNIQUE = "runtime monitoring: icontract class invariant on State + shadow model after every operation; bounded-exhaustive operation sequences plus long random ones"
-LEVEL_TEXT = ("All sequences up to length 5 (quick) / 6 (thorough) over a 10-operation alphabet (append scalar/array/broadcast/defaults, kill first/last/middle, "
+LEVEL_TEXT = ("All sequences up to length 5 (quick) / 6 (thorough) over an 11-operation alphabet (append scalar/array/broadcast/length-1 arrays/defaults, kill first/last/middle, "
               "compactify, instance and particle item assignment) are executed on the real State with extra instance and particle variables; after every "
               "operation an icontract invariant and a pid-keyed shadow model are checked. Random sequences of length 50-300 extend the reach.")
 LEVEL_NOTE = "Trusts numpy and icontract; the record-level clause (pid strictly increasing, pid[k] >= k in every output record) is asserted by the shared output checker in the end-to-end checks (C06, C09, C14 ...)."
@@ -27,7 +27,7 @@ ASSUMPTIONS = ["single-threaded use of State (ladim has no threads)"]
 EXHAUSTIVE = {"quick": True, "thorough": True}
 TIMEOUT = {"quick": 600, "thorough": 3000}
 
-OPS = ["app_scalar", "app_array", "app_bcast", "app_default", "kill_first", "kill_last", "kill_mid", "compact", "set_inst", "set_part"]
+OPS = ["app_scalar", "app_array", "app_bcast", "app_default", "kill_first", "kill_last", "kill_mid", "compact", "set_inst", "set_part", "app_len1"]
 
 
 class InvariantBroken(Exception):
@@ -120,6 +120,10 @@ def _apply(op: str, s, sh: Shadow, ctr: list[int], rng) -> None:
             xs = [base + 0.01 * i for i in range(3)]
             s.append(X=np.array(xs), Y=base, Z=0.0, age=1.5, w=base, tag=ctr[0])
             sh.append([dict(X=x, Y=base, Z=0.0, age=1.5, w=base, tag=ctr[0]) for x in xs])
+        elif op == "app_len1":  # length-1 arrays broadcast against longer ones (instance and particle variable)
+            xs = [base + 0.01 * i for i in range(3)]
+            s.append(X=np.array(xs), Y=[base + 0.25, base + 0.26, base + 0.27], Z=[base + 0.5], age=np.array([2.5]), w=[base], tag=np.array([ctr[0]]))
+            sh.append([dict(X=x, Y=base + 0.25 + 0.01 * i, Z=base + 0.5, age=2.5, w=base, tag=ctr[0]) for i, x in enumerate(xs)])
         else:  # defaults for age (0.0) and w (7.0)
             s.append(X=[base, base + 1], Y=base, Z=2.0, tag=ctr[0])
             sh.append([dict(X=base, Y=base, Z=2.0, age=0.0, w=7.0, tag=ctr[0]), dict(X=base + 1, Y=base, Z=2.0, age=0.0, w=7.0, tag=ctr[0])])
@@ -229,7 +233,7 @@ def run_case(case: dict[str, Any], wd: Path) -> dict[str, Any]:
         rng = C.rng_for(case["seed"], 5, case["idx"])
         for _ in range(case["n"]):
             L = int(rng.integers(case["minlen"], case["maxlen"] + 1))
-            p = np.array([2, 2, 1, 1, 2, 2, 3, 3, 1, 1], float)
+            p = np.array([2, 2, 1, 1, 2, 2, 3, 3, 1, 1, 1], float)
             seq = [OPS[i] for i in rng.choice(len(OPS), size=L, p=p / p.sum())]
             nseq += 1
             before = sit.get("append_after_compactify", 0)
